@@ -180,5 +180,21 @@ CHECKS = {
           "values_dict/prot/store_as, Attributes.order, SelfReference/XmlData/XmlAttribute fields, nested child_attrs.",
   'technique': 'Coq proof (frame invariant by induction over operation histories) over a class-store model + snapshot correspondence + fail-closed ast translator (derive) + direct oracle',
  },
+ 'C04': {
+  'text': "Whatever document a client sends (XML/SOAP, JSON, YAML, MessagePack, HttpRpc), every argument, header and nested "
+          "member handed to user code is None, a native value of the declared model (an instance of a registered subclass "
+          "where a complex type is declared), or a list of such; a request that would need another type is refused with a "
+          "validation fault.",
+  'design_ref': 'DESIGN.md section 6 (C04)',
+  'note': TB + "Typing theorems proved over Gallina models of XmlDocument.from_element (all documents and registries, validator "
+          "None/soft, parse_xsi_type on/off) and of HierDictDocument._from_dict_value/_doc_to_object for JSON/YAML/MessagePack "
+          "under soft validation, instantiated with decision tables regenerated from the source on every run (xsi:type guard; "
+          "_ret_bool/_ret_number/null-object handling; byte-string text is decoded before validation, the decode being an "
+          "observed table). Refusal of unrelated xsi:type is proved, and the pre-repair code and MessagePack ByteArray are "
+          "refuted on witnesses. Observed only: HttpRpc, SOAP envelopes and headers, validator=lxml, rich leaf types. Three "
+          "defects repaired here, the null-object one by the C05 repair; findings: MessagePack ByteArray receives arbitrary "
+          "values, SOAP headers are not schema-validated under validator=lxml.",
+  'technique': 'Coq proof (typing judgement, induction on fuel) over Gallina models of the XML and dict deserialisers + fail-closed ast translators (xsitype, dictleaf) + vm_compute correspondence + isinstance/value-space oracle with an exhaustive xsi:type retag battery',
+ },
 }
 NOT_APPLICABLE = {}
